@@ -108,7 +108,11 @@ pub fn cmd_abi(a: &[&str]) -> String {
     let path = tmp_path("abi");
     let mut mono = (100i64, 0i64);
     let mut real = (1_700_000_000i64, 0i64);
-    match a.get(0).copied().unwrap_or("") {
+    let first = a.get(0).copied().unwrap_or("");
+    // `dirty:<scenario>`: the caller's clockbound_err already holds an error (SYSCALL, errno 2) from an earlier call
+    let dirty = first.starts_with("dirty:");
+    let scen = first.strip_prefix("dirty:").unwrap_or(first);
+    match scen {
         "rec" => {
             let v: Vec<i64> = a[1..].iter().map(|x| x.parse().unwrap_or(0)).collect();
             let mut bytes = header_bytes(72, 1, 2);
@@ -159,6 +163,13 @@ pub fn cmd_abi(a: &[&str]) -> String {
     let cpath = CString::new(path.clone()).unwrap();
     let c = std::panic::catch_unwind(|| unsafe {
         let mut err = crate::ffi::clockbound_err::default();
+        if dirty {
+            let missing = CString::new("/nonexistent/clockbound-verif").unwrap();
+            let c0 = crate::ffi::clockbound_open(missing.as_ptr(), &mut err);
+            if !c0.is_null() {
+                crate::ffi::clockbound_close(c0);
+            }
+        }
         let ctx = crate::ffi::clockbound_open(cpath.as_ptr(), &mut err);
         if ctx.is_null() {
             return format!("open_err:kind={}:errno={}", err.kind as i32, err.errno);
